@@ -11,7 +11,7 @@ Definition registered (s : st) (t : nat) (o : op) : Prop :=
   | _ => match notify_of o with Some n => nwait s n t = true | None => False end
   end.
 
-Record Inv (s : st) : Prop := {
+Record Inv0 (s : st) : Prop := {
   (** the wake-up invariant: a pending operation whose task is not runnable is registered
       and its condition is false *)
   inv_wake : forall t o, pend s t = Some o ->
@@ -38,10 +38,31 @@ Record Inv (s : st) : Prop := {
   (** reference counting: [ref_count] = number of [ConnectionRef]s - 1 *)
   inv_ref_alive : driver_alive s = true -> refcnt s = nhandles s;
   inv_ref_dead : driver_alive s = false -> refcnt s = (nhandles s - 1)%Z;
-  (** the driver's own wake-up protocol *)
-  inv_drv : driver_alive s = true ->
-      (drv_runnable s = true \/ drv_waker s = true) /\ (drv_work s = true -> drv_runnable s = true);
   (** integrity: nothing received is lost or duplicated by polls, drops and wake-ups *)
   inv_data : forall k, discarded s k = false -> arrived s k = delivered s k ++ rx s k;
-  inv_dgram : d_arrived s = d_delivered s ++ dq s
+  inv_dgram : d_arrived s = d_delivered s ++ dq s;
+  inv_deliv_seen : forall k, seen s k = false -> delivered s k = []
 }.
+
+(** the driver's own wake-up protocol (not maintained INSIDE a driver poll, hence separate) *)
+Definition drv_ok (s : st) : Prop :=
+  driver_alive s = true ->
+  (drv_runnable s = true \/ drv_waker s = true) /\ (drv_work s = true -> drv_runnable s = true).
+
+Record Inv (s : st) : Prop := { inv_0 :> Inv0 s; inv_drv : drv_ok s }.
+
+(** the protocol / ghost / handle part of the state (everything a cancelled future must not touch) *)
+Definition proto_eq (a b : st) : Prop :=
+  connected a = connected b /\ hsconf a = hsconf b /\ err a = err b /\ budget a = budget b /\
+  incoming a = incoming b /\ seen a = seen b /\ rx a = rx b /\ rx_end a = rx_end b /\
+  wcredit a = wcredit b /\ w_end a = w_end b /\ stop_done a = stop_done b /\ dq a = dq b /\
+  dspace a = dspace b /\ arrived a = arrived b /\ delivered a = delivered b /\
+  discarded a = discarded b /\ d_arrived a = d_arrived b /\ d_delivered a = d_delivered b /\
+  recv_h a = recv_h b /\ send_h a = send_h b /\ all_read a = all_read b /\
+  refcnt a = refcnt b /\ nhandles a = nhandles b /\ br a = br b /\ bw a = bw b /\
+  skeys a = skeys b /\ inner_closed a = inner_closed b /\ drained a = drained b /\
+  driver_alive a = driver_alive b /\ drv_waker a = drv_waker b /\ drv_runnable a = drv_runnable b /\
+  drv_work a = drv_work b /\ ep_entry a = ep_entry b.
+
+Definition ok (ls : list label) : Prop := forallb label_no_reset_ack ls = true.
+
